@@ -232,6 +232,10 @@ func init() {
 	intrinsics[zz+"IteStr"] = func(x *Exec, st *State, fr *Frame, fn *ssa.Function, a []Value) (Value, int) {
 		return ret1(x.strIte(a[0].(*Term), a[1].(*StrV), a[2].(*StrV)))
 	}
+	intrinsics[zz+"Unreachable"] = func(x *Exec, st *State, fr *Frame, fn *ssa.Function, a []Value) (Value, int) {
+		x.doAssert(st, fr, x.tc.False, x.concStr(a[0], "Unreachable message"))
+		return nil, 1
+	}
 	intrinsics[zz+"Reach"] = func(x *Exec, st *State, fr *Frame, fn *ssa.Function, a []Value) (Value, int) {
 		x.ReachTags[x.concStr(a[0], "Reach")]++
 		return nil, 1
@@ -292,6 +296,25 @@ func init() {
 		}
 		return ret1(x.tc.Const(64, uint64(st.locks[p.String()])))
 	}
+	hook := func(kind string) intrinsicFn {
+		return func(x *Exec, st *State, fr *Frame, fn *ssa.Function, a []Value) (Value, int) {
+			iv := a[0].(IfaceV)
+			p, ok := iv.val.(PtrV)
+			if !ok {
+				panic(x.unsupported("lock hook on non-pointer"))
+			}
+			f := a[1].(*FuncV)
+			if f == nil {
+				delete(st.ghost, kind+p.String())
+			} else {
+				st.ghost[kind+p.String()] = f
+			}
+			st.mutGen++
+			return nil, 1
+		}
+	}
+	intrinsics[zz+"OnLock"] = hook("$onlock:")
+	intrinsics[zz+"OnUnlock"] = hook("$onunlock:")
 	intrinsics[zz+"SwapElems"] = func(x *Exec, st *State, fr *Frame, fn *ssa.Function, a []Value) (Value, int) {
 		s := a[0].(IfaceV).val.(SliceV)
 		i, j := int(x.concInt(a[1], "SwapElems")), int(x.concInt(a[2], "SwapElems"))
@@ -345,6 +368,10 @@ func init() {
 		}
 		st.locks[k] = -1
 		st.mutGen++
+		if h, ok := st.ghost["$onlock:"+k]; ok {
+			x.redirArgs = nil
+			return h, 3
+		}
 		return nil, 1
 	}
 	intrinsics["(*sync.Mutex).TryLock"] = func(x *Exec, st *State, fr *Frame, fn *ssa.Function, a []Value) (Value, int) {
@@ -363,6 +390,10 @@ func init() {
 		}
 		st.locks[k] = 0
 		st.mutGen++
+		if h, ok := st.ghost["$onunlock:"+k]; ok {
+			x.redirArgs = nil
+			return h, 3
+		}
 		return nil, 1
 	}
 	intrinsics["(*sync.RWMutex).Lock"] = intrinsics["(*sync.Mutex).Lock"]
